@@ -5,7 +5,12 @@
 //!   dst replay <file> [-v]
 //!   dst one <Cxx> <tier> <index> [-v]         run one generated scenario in-process
 
+mod allocmon;
 mod engine;
+
+#[global_allocator]
+static GLOBAL: allocmon::Counting = allocmon::Counting;
+
 mod httpmodel;
 mod orch;
 mod props;
